@@ -555,7 +555,7 @@ var (
 	reStates   = regexp.MustCompile(`(\d+) states generated, (\d+) distinct states found`)
 	reSimGen   = regexp.MustCompile(`The number of states generated: (\d+)`)
 	reDepth    = regexp.MustCompile(`The depth of the complete state graph search is (\d+)`)
-	reViolated = regexp.MustCompile(`(Invariant \S+ is violated|Temporal properties were violated|Deadlock reached|Action property \S+ is violated|The postcondition has been violated|Postcondition \\S+ .*is false|Assumption .* is false)`)
+	reViolated = regexp.MustCompile(`(Invariant \S+ is violated|Temporal properties were violated|Deadlock reached|Action property \S+ is violated|The postcondition has been violated|Postcondition \S+ .*is false|Assumption .* is false)`)
 	reCovZero  = regexp.MustCompile(`^<(\w+) line .*>: 0:0`)
 )
 
